@@ -6,3 +6,15 @@ import "crypto/ecdsa"
 
 // verifKey returns the (modelled) private key of an identity of the alphabet.
 func verifKey(identity string) *ecdsa.PrivateKey
+
+// verifNextRecID fixes the recovery id of the next modelled signature.
+func verifNextRecID(v int)
+
+// verifSignV signs the request so that the signature's recovery id is v: in
+// the model the id of a signature is arbitrary, so it is simply fixed; the
+// native counterpart nudges the last parameter until the real signature has it.
+func verifSignV(key *ecdsa.PrivateKey, v int, method, id string, nonce int64, arg verifArgs, extra int64) (string, int64, error) {
+	verifNextRecID(v)
+	sig, err := Sign(key, method, id, nonce, arg, extra)
+	return sig, extra, err
+}
